@@ -11,6 +11,10 @@
     next     : Thread ↦ Nat                  allocation counter: the n-th object *created by thread t*
                                              is named `(t, n)` (a naming of Python's fresh identities)
 
+  `Runtime.handle` builds its result with `Runtime({**self.handlers, **overrides})`, and
+  `Runtime.__init__` puts a snapshot of the defaults underneath whatever it is given, so a derived
+  runtime holds: overrides, else the receiver's handlers, else the defaults at derivation time.
+
   Every operation below is one `with lock:` body (or lock-free code that only reads immutable
   data / allocates), hence atomic.  What is abstracted away:
     * handler bodies (handlers are tags `H`; a served request returns the tag),
@@ -98,10 +102,10 @@ def serve (defaults : Table) (handlers : Table) (ty : Ty) : Res :=
 def step (s : State) (t : Thread) : Op → State × Res
   | .current => let c := current s t; (c.1, .id c.2)
   | .new hs => let a := alloc s t (hs ++ s.defaults); (a.1, .id a.2)
-  | .derive r hs => let a := alloc s t (hs ++ (s.objs r).handlers); (a.1, .id a.2)
+  | .derive r hs => let a := alloc s t (hs ++ (s.objs r).handlers ++ s.defaults); (a.1, .id a.2)
   | .handleCur hs =>
       let c := current s t
-      let a := alloc c.1 t (hs ++ (c.1.objs c.2).handlers)
+      let a := alloc c.1 t (hs ++ (c.1.objs c.2).handlers ++ c.1.defaults)
       (a.1, .id a.2)
   | .enter r =>
       ({ s with objs := upd s.objs r { handlers := (s.objs r).handlers,
@@ -255,10 +259,10 @@ def acurrent (a : AState) (t : Thread) : AState × Id :=
 def astep (a : AState) (t : Thread) : Op → AState × Res
   | .current => let c := acurrent a t; (c.1, .id c.2)
   | .new hs => let x := aalloc a t (hs ++ a.defaults); (x.1, .id x.2)
-  | .derive r hs => let x := aalloc a t (hs ++ a.handlers r); (x.1, .id x.2)
+  | .derive r hs => let x := aalloc a t (hs ++ a.handlers r ++ a.defaults); (x.1, .id x.2)
   | .handleCur hs =>
       let c := acurrent a t
-      let x := aalloc c.1 t (hs ++ c.1.handlers c.2)
+      let x := aalloc c.1 t (hs ++ c.1.handlers c.2 ++ c.1.defaults)
       (x.1, .id x.2)
   | .enter r =>
       ({ a with frames := upd a.frames t ((r, a.cur t) :: a.frames t), cur := upd a.cur t (some r) }, .unit)
@@ -557,13 +561,13 @@ theorem step_refines {c0 c : State} {a : AState} (h : Refines c0 c a) (t : Threa
     simp only [step, astep, h.defaults]
     exact ⟨this.1, by rw [this.2]⟩
   | derive r hs =>
-    have := alloc_refines h t (hs ++ (c.objs r).handlers)
-    simp only [step, astep, h.handlers]
+    have := alloc_refines h t (hs ++ (c.objs r).handlers ++ c.defaults)
+    simp only [step, astep, h.handlers, h.defaults]
     exact ⟨this.1, by rw [this.2]⟩
   | handleCur hs =>
     have hc := current_refines h t
-    have := alloc_refines hc.1 t (hs ++ ((current c t).1.objs (current c t).2).handlers)
-    simp only [step, astep, hc.1.handlers, hc.2]
+    have := alloc_refines hc.1 t (hs ++ ((current c t).1.objs (current c t).2).handlers ++ (current c t).1.defaults)
+    simp only [step, astep, hc.1.handlers, hc.2, hc.1.defaults]
     exact ⟨this.1, by rw [this.2]⟩
   | enter r =>
     obtain ⟨hd, hh, hn, hc, he⟩ := h
@@ -644,7 +648,7 @@ theorem exec_refines (t : Thread) (b : Block) : ∀ (env : Env) (c0 c : State) (
     | none =>
       have := ih env c0 c a h
       simp only [exec, aexec] at this
-      simp only [machine_step, amachine_step, machine_cur, amachine_cur] at *
+      simp only [machine_cur, amachine_cur] at *
       refine ⟨this.1, ?_, this.2.2.1, this.2.2.2⟩
       simp [this.2.1, h.cur]
     | some x =>
@@ -652,7 +656,7 @@ theorem exec_refines (t : Thread) (b : Block) : ∀ (env : Env) (c0 c : State) (
       simp only [machine_step, amachine_step]
       rw [hs.2]
       have := ih (bindEnv env o (step c t x).2) c0 (step c t x).1 (astep a t x).1 hs.1
-      simp only [exec, aexec, machine_step, amachine_step] at this
+      simp only [exec, aexec] at this
       exact ⟨this.1, by simp [this.2.1], this.2.2.1, this.2.2.2⟩
   | with_ x body k ihb ihk =>
     intro env c0 c a h
